@@ -18,7 +18,7 @@ Definition walk_tbl : wtable := [
   ("SelectorExpr", [WOne "X" false; WOne "Sel" false]);
   ("IndexExpr", [WOne "X" false; WOne "Index" false]);
   ("IndexListExpr", [WOne "X" false; WMany "Indices"]);
-  ("SliceExpr", [WOne "X" false; WOne "Low" true; WOne "High" true]);
+  ("SliceExpr", [WOne "X" false; WOne "Low" true; WOne "High" true; WOne "Max" true]);
   ("TypeAssertExpr", [WOne "X" false; WOne "Type" true]);
   ("CallExpr", [WOne "Fun" false; WMany "Args"]);
   ("StarExpr", [WOne "X" false]);
